@@ -75,6 +75,11 @@ func (self *BinaryConv) do(ctx context.Context, src []byte, desc *thrift.TypeDes
 	//NOTICE: output buffer must be larger than src buffer
 	rt.GuardSlice(out, len(src)*_GUARD_SLICE_FACTOR)
 
+	if self.opts.EnableValueMapping && self.opts.ByteAsUint8 {
+		// value mappings only see the context: let them know how bytes are to be printed
+		ctx = context.WithValue(ctx, conv.CtxKeyConvOptions, &self.opts)
+	}
+
 	var p = thrift.BinaryProtocol{
 		Buf: src,
 	}
